@@ -75,7 +75,7 @@ def check(gs, runs, tag):
             continue
         recs, err = parse(r['lines'], g['n'])
         if err:
-            fails.append({'what': 'visit trace malformed: ' + err, 'cmd': r.get('cmd')}); continue
+            fails.append({'what': 'visit trace malformed: ' + err, 'cmd': r.get('cmd'), 'level': 'model'}); continue
         # raw dumps after each epoch's barrier
         dump = {}
         for l in r['lines']:
@@ -97,11 +97,11 @@ def check(gs, runs, tag):
             for (rk, item, pre, term, post) in rs:
                 kinds[term.split()[0]] += 1
                 if item in last and last[item] != pre:
-                    fails.append({'what': 'epoch %d: entry of item %d is %s before a visit, the previous visit left it at %s (changed outside a visit)' % (e, item, pre, last[item]), 'cmd': r.get('cmd')})
+                    fails.append({'what': 'epoch %d: entry of item %d is %s before a visit, the previous visit left it at %s (changed outside a visit)' % (e, item, pre, last[item]), 'cmd': r.get('cmd'), 'level': 'model'})
                 last[item] = post
             for item, post in last.items():
                 if dump.get((e, item)) != post:
-                    fails.append({'what': 'epoch %d: item %d is %s in the structure after the barrier, its last visit left it at %s' % (e, item, dump.get((e, item)), post), 'cmd': r.get('cmd')})
+                    fails.append({'what': 'epoch %d: item %d is %s in the structure after the barrier, its last visit left it at %s' % (e, item, dump.get((e, item)), post), 'cmd': r.get('cmd'), 'level': 'model'})
             if not rs and not issued:
                 continue
             nvis += len(rs)
@@ -127,5 +127,5 @@ def check(gs, runs, tag):
             what = 'epoch %d: the merge callbacks reported by the container are not the ones DisjointLocal.lcb fires on the recorded visits' % e
         else:
             what = 'epoch %d: the visits executed are not the unions issued plus the visits DisjointLocal.lexec says were sent (a visit was sent with other arguments, lost, duplicated or invented)' % e
-        fails.append({'what': what, 'cmd': r.get('cmd'), 'edges': [x for x in g['edges'] if x[0] == e][:12]})
+        fails.append({'what': what, 'cmd': r.get('cmd'), 'edges': [x for x in g['edges'] if x[0] == e][:12], 'level': 'model'})
     return {'validated': len(cases) - len(bad), 'visits': nvis, 'failures': fails, 'msg': None, 'kinds': kinds}
